@@ -430,16 +430,16 @@ func runStream(res *vh.Result, rp replay, verbose bool) string {
 				})
 				rf, ok := rctx.Value(launch.RateLimiterResultContextKey).(func() launch.RateLimiterResult)
 				if !ok {
-					res.Fail("func-no-result", at+"Func did not put a RateLimiterResult into the context", rp)
+					failc(res, "func-no-result", at+"Func did not put a RateLimiterResult into the context", rp)
 					return "CH " + vh.List(steps)
 				}
 				rr := rf()
 				if rr.Allowed != called || (err == nil) != called {
-					res.Fail("func-allowed-inconsistent", at+fmt.Sprintf("allowed=%v handler called=%v err=%v", rr.Allowed, called, err), rp)
+					failc(res, "func-allowed-inconsistent", at+fmt.Sprintf("allowed=%v handler called=%v err=%v", rr.Allowed, called, err), rp)
 				}
 				l := w.h.VerifCachedRateLimiter(addrs[op.Addr], handlers[op.H])
 				if l == nil {
-					res.Fail("func-no-limiter", at+"no limiter cached after Func", rp)
+					failc(res, "func-no-limiter", at+"no limiter cached after Func", rp)
 					return "CH " + vh.List(steps)
 				}
 				dk, da := descOf(l.Desc())
@@ -447,15 +447,15 @@ func runStream(res *vh.Result, rp replay, verbose bool) string {
 				obs = nlist(got.Type, got.Rule, got.DescKind, got.DescArg, got.Checksum, w.gen(l.Limiter))
 				// enforcement of the two rules without a bucket
 				if got.Rule == ruleZero && rr.Allowed {
-					res.Fail("limit-all-allowed", at+"a request decided by the limit-all rule (0) was allowed", rp)
+					failc(res, "limit-all-allowed", at+"a request decided by the limit-all rule (0) was allowed", rp)
 				}
 				if got.Rule == ruleNoLimit && !rr.Allowed {
-					res.Fail("nolimit-denied", at+"a request decided by the nolimit rule was denied", rp)
+					failc(res, "nolimit-denied", at+"a request decided by the nolimit rule was denied", rp)
 				}
 				// what Func reports must be the limiter it used
 				rk, ra := descOf(rr.RulesetDesc)
 				if indexOf(types, rr.RulesetType) != got.Type || ruleFromHuman(rr.Limiter) != got.Rule || rk != dk || ra != da {
-					res.Fail("func-result-inconsistent", at+fmt.Sprintf("Func reports type %q desc %q limiter %q, the cached limiter is %+v", rr.RulesetType, rr.RulesetDesc, rr.Limiter, got), rp)
+					failc(res, "func-result-inconsistent", at+fmt.Sprintf("Func reports type %q desc %q limiter %q, the cached limiter is %+v", rr.RulesetType, rr.RulesetDesc, rr.Limiter, got), rp)
 				}
 			}
 			w.known[op.Addr] = true
@@ -467,7 +467,7 @@ func runStream(res *vh.Result, rp replay, verbose bool) string {
 				case cached && w.lastSetAt > w.decidedAt[key]:
 					class = "cached-limiter-ignores-ruleset-update"
 				}
-				res.Fail(class, at+fmt.Sprintf("addr %d handler %d client id %q node %d: limiter used %+v, the precedence chain gives %+v (cached limiter decided for client id %q at op %d; last rule set installed at op %d)",
+				failc(res, class, at+fmt.Sprintf("addr %d handler %d client id %q node %d: limiter used %+v, the precedence chain gives %+v (cached limiter decided for client id %q at op %d; last rule set installed at op %d)",
 					op.Addr, op.H, cids[op.Cid], node, got, want, cids[w.decidedCid[key]], w.decidedAt[key], w.lastSetAt), rp)
 			} else {
 				w.decidedCid[key] = op.Cid
@@ -487,7 +487,7 @@ func runStream(res *vh.Result, rp replay, verbose bool) string {
 			_, has := w.node[op.Addr]
 			wantok := w.known[op.Addr] && !has
 			if ok != wantok {
-				res.Fail("addnode-result", at+fmt.Sprintf("AddNode(addr %d)=%v want %v", op.Addr, ok, wantok), rp)
+				failc(res, "addnode-result", at+fmt.Sprintf("AddNode(addr %d)=%v want %v", op.Addr, ok, wantok), rp)
 			}
 			if ok {
 				w.node[op.Addr] = op.Node
@@ -497,7 +497,7 @@ func runStream(res *vh.Result, rp replay, verbose bool) string {
 		case "removeaddr":
 			ok := w.h.VerifRemoveAddr(addrs[op.Addr])
 			if ok != w.known[op.Addr] {
-				res.Fail("removeaddr-result", at+fmt.Sprintf("remove(addr %d)=%v want %v", op.Addr, ok, w.known[op.Addr]), rp)
+				failc(res, "removeaddr-result", at+fmt.Sprintf("remove(addr %d)=%v want %v", op.Addr, ok, w.known[op.Addr]), rp)
 			}
 			delete(w.known, op.Addr)
 			delete(w.node, op.Addr)
@@ -566,7 +566,7 @@ func runStream(res *vh.Result, rp replay, verbose bool) string {
 					items = append(items, vh.Tuple(vh.N(uint64(na.Net)), nlist(cont...), na.RM.coq()))
 				}
 				if err := rs.IsValid(nil); err != nil && !hasDupNet(op.Nets) {
-					res.Fail("nets-invalid", at+err.Error(), rp)
+					failc(res, "nets-invalid", at+err.Error(), rp)
 				}
 				_ = w.rules.SetNetRuleSet(rs)
 				w.ref.nets, w.ref.netsSet = op.Nets, true
@@ -603,6 +603,19 @@ func runStream(res *vh.Result, rp replay, verbose bool) string {
 	}
 	res.Count(fmt.Sprint(rp), nontrivial)
 	return "CH " + vh.List(steps)
+}
+
+// failc records at most 25 failures per class (vh.Result keeps 200 in total): the open known findings
+// must not crowd out a failure of another class.
+var failCount = map[string]int{}
+
+func failc(res *vh.Result, class, desc string, replay any) {
+	failCount[class]++
+	if failCount[class] <= 25 {
+		res.Fail(class, desc, replay)
+	} else {
+		res.Distribution["oracle_fail:"+class]++
+	}
 }
 
 func hasDupNet(ns []NetAdd) bool {
@@ -816,7 +829,7 @@ func bucketCase(res *vh.Result, r *vh.Rand, cases *vh.Cases) {
 		return
 	}
 	if got := float64(l.Limit()); math.Abs(got*float64(interval)/1e9-1) > 1e-9 {
-		res.Fail("limit-not-burst-per-duration", fmt.Sprintf("rule %d/%s: limiter limit %v tokens/s, expected one token per %dns", burst, d, got, interval), nil)
+		failc(res, "limit-not-burst-per-duration", fmt.Sprintf("rule %d/%s: limiter limit %v tokens/s, expected one token per %dns", burst, d, got, interval), nil)
 	}
 	n := r.Range(5, 60)
 	base := time.Unix(1700000000, 0)
@@ -876,7 +889,7 @@ func bucketCase(res *vh.Result, r *vh.Rand, cases *vh.Cases) {
 				k++
 			}
 			if k*interval > int64(burst)*interval+(ts[j]-ts[i])+1 {
-				res.Fail("bucket-bound", fmt.Sprintf("burst %d, one token per %dns: %d requests allowed in the window [%d,%d]ns", burst, interval, k, ts[i], ts[j]), rp)
+				failc(res, "bucket-bound", fmt.Sprintf("burst %d, one token per %dns: %d requests allowed in the window [%d,%d]ns", burst, interval, k, ts[i], ts[j]), rp)
 				i = len(ts)
 				break
 			}
@@ -924,7 +937,7 @@ func realTime(res *vh.Result) {
 	el := time.Since(start)
 	bound := float64(burst) + float64(el)/float64(d/time.Duration(burst)) + 1
 	if float64(allowed) > bound {
-		res.Fail("bucket-bound-realtime", fmt.Sprintf("rule %d/%s: %d of %d requests allowed within %s", burst, d, allowed, total, el), nil)
+		failc(res, "bucket-bound-realtime", fmt.Sprintf("rule %d/%s: %d of %d requests allowed within %s", burst, d, allowed, total, el), nil)
 	}
 	res.Evaluations++
 	res.Distribution["realtime_requests"] = total
@@ -960,7 +973,7 @@ func switching(res *vh.Result) {
 	bound := 2 + float64(el)/float64(5*time.Second) + 1
 	res.Evaluations++
 	if float64(allowed) > bound {
-		res.Fail("bucket-reset-on-rule-switch", fmt.Sprintf("rule 2/10s for client id c1: alternating requests with client ids c1 / none from one address: %d of 20 c1-requests allowed within %s (%d distinct buckets used)", allowed, el, len(ptrs)),
+		failc(res, "bucket-reset-on-rule-switch", fmt.Sprintf("rule 2/10s for client id c1: alternating requests with client ids c1 / none from one address: %d of 20 c1-requests allowed within %s (%d distinct buckets used)", allowed, el, len(ptrs)),
 			map[string]any{"switching": true})
 	}
 }
